@@ -443,6 +443,7 @@ func (c *Cluster) healPhase() {
 	c.Net.RedeliverPm = 0
 	for _, n := range c.Nodes {
 		n.FS.CrashAt = 0
+		n.FS.CrashKind = ""
 		n.FS.ErrAt = 0
 		n.FS.SyncLatency = nil // a slow disk is a fault too
 		if n.Inc != nil {
@@ -549,6 +550,12 @@ func (c *Cluster) healPhase() {
 			}
 		}
 		r.violate("C15", "liveness-"+stage, cause, "%d election timeouts after faults stopped: %s", budget/cfg.electionNs(), detail)
+		// C14 includes "the restarted node catches up with the leader": the same observation,
+		// for a node that was killed (at least once) and created again over its directory.
+		if stage == "not-converged" && c.lagging != nil && c.lagging.crashes > 0 && !cfg.Membership {
+			r.violate("C14", "restarted-not-caught-up", cause, "%s was killed %d time(s) and restarted; %d election timeouts after faults stopped: %s",
+				c.lagging.ID, c.lagging.crashes, budget/cfg.electionNs(), detail)
+		}
 	} else {
 		r.probe("heal-converged")
 		c.healedInMs = (c.Sim.Now() - healStart) / 1_000_000
@@ -648,26 +655,39 @@ func (c *Cluster) laggard(leader *Node) string {
 }
 
 // checkInstanceComplete: C10 "no operation is ever applied twice or skipped on any replica".
+// The two halves are judged separately, so that a duplicate (a consequence of known findings
+// F1/F2) early in the sequence does not hide an operation that is missing later.
 func (r *Recorder) checkInstanceComplete(inc *Incarnation, a *authSeq) {
 	if inc.SM == nil {
 		return
 	}
-	for k, o := range inc.SM.Ops {
-		if k >= len(a.idx) {
+	ops := inc.SM.Ops
+	// Applied twice / out of order: the sequence of applied indices is not strictly increasing,
+	// or it holds an index that no committed operation has.
+	for k, o := range ops {
+		if k > 0 && o.Index <= ops[k-1].Index {
+			r.violate("C10", "replica-applied-twice", r.tainted(inc.Node, "sequence", "F1", "F2"), "%s: its %d-th applied operation is index %d, after index %d (applied-twice)",
+				inc.Name(), k+1, o.Index, ops[k-1].Index)
 			break
 		}
-		if a.idx[k] != o.Index {
-			what := "skipped"
-			if o.Index < a.idx[k] || (k > 0 && o.Index <= inc.SM.Ops[k-1].Index) {
-				what = "applied-twice"
-			}
-			taints := []string{"F1", "F2"}
-			if what == "skipped" {
-				taints = []string{"F3"}
-			}
-			r.violate("C10", "replica-"+what, r.tainted(inc.Node, "sequence", taints...), "%s: its %d-th applied operation is index %d, but the %d-th committed operation is index %d (%s)",
-				inc.Name(), k+1, o.Index, k+1, a.idx[k], what)
-			return
+	}
+	// Skipped: a committed operation below the last applied one is absent.
+	have := make(map[uint64]bool, len(ops))
+	max := uint64(0)
+	for _, o := range ops {
+		have[o.Index] = true
+		if o.Index > max {
+			max = o.Index
+		}
+	}
+	for k, idx := range a.idx {
+		if idx >= max {
+			break
+		}
+		if !have[idx] {
+			r.violate("C10", "replica-skipped", r.tainted(inc.Node, "sequence", "F3"), "%s: the %d-th committed operation (index %d) was never applied, although the replica applied up to index %d (skipped)",
+				inc.Name(), k+1, idx, max)
+			break
 		}
 	}
 }
